@@ -224,3 +224,48 @@ package kv
 //@   modifies cf.streamWriter, cf.compactJob.state.builder
 //@   ensures[the_merger_gets_the_rebinding_writer] result1 == nil ==> (result0 != nil && typeis(result0, "*compactFlusherStreamWriter") && cswOK(cast(result0, "*compactFlusherStreamWriter")))
 //@ end
+
+//@ # ---- obsolete file deletion (C02): a table file stays alive while a flush / compaction is still writing it or a
+//@ # version references it. A writer registers its output as pending BEFORE creating the file and removes the mark
+//@ # AFTER the version that references it is installed, so the deleter must read the directory first, then the pending
+//@ # marks, and only then the active versions (a file that is neither pending nor active at those moments is garbage);
+//@ # any other order can delete a file that has just been committed -------------------------------------------------
+//@ ghost field sync.Map.rangedAt int
+//@ extern func sync.Map.Range
+//@   modifies *
+//@   ensures m.rangedAt == now()
+//@ end
+//@ ghost field github.com/lindb/lindb/kv/version.FamilyVersion.activeReadAt int
+//@ func github.com/lindb/lindb/kv/version.FamilyVersion.GetAllActiveFiles
+//@   norefine
+//@   modifies self.activeReadAt
+//@   ensures self.activeReadAt == now() && forall(i, 0, len(result), result[i] != nil)
+//@ end
+//@ func listDirFunc
+//@   modifies nothing
+//@ end
+//@ func github.com/lindb/lindb/kv/version.FamilyVersion.GetLiveRollupFiles
+//@   norefine
+//@   modifies nothing
+//@ end
+//@ func github.com/lindb/lindb/kv/version.ParseFileName
+//@   assume
+//@   modifies nothing
+//@ end
+//@ func Store.evictFamilyFile
+//@   norefine
+//@   modifies nothing
+//@ end
+//@ func family.deleteSST
+//@   assume
+//@   note the file system is not modelled: deleting a table file changes no program state
+//@   modifies nothing
+//@ end
+//@ stable family.store
+//@ func family.deleteObsoleteFiles
+//@   prop C02
+//@   clock
+//@   requires f.familyVersion != nil && f.store != nil
+//@   modifies *
+//@   ensures[pending_outputs_are_collected_before_the_active_versions_are_read] calls(f.familyVersion.GetAllActiveFiles) != old(calls(f.familyVersion.GetAllActiveFiles)) ==> f.pendingOutputs.rangedAt < f.familyVersion.activeReadAt
+//@ end
